@@ -44,9 +44,11 @@ def findSub (pat : Bytes) : Bytes → Nat → Option Nat
 def slice16 (s : Bytes) (a : Nat) : Bytes := (s.drop a).take 16
 
 /-- role assignments: class-id (16 bytes) → role, later assignments of the same class id replace earlier ones -/
-def assign (sha1 : Bytes → Bytes) (tbl : List (Bytes × String)) (vendor cls role : String) : List (Bytes × String) :=
-  let cid := Uuid.cid sha1 (utf8 vendor) (utf8 cls)
+def tblSet (tbl : List (Bytes × String)) (cid : Bytes) (role : String) : List (Bytes × String) :=
   if tbl.any (fun e => e.1 == cid) then tbl.map (fun e => if e.1 == cid then (cid, role) else e) else tbl ++ [(cid, role)]
+
+def assign (sha1 : Bytes → Bytes) (tbl : List (Bytes × String)) (vendor cls role : String) : List (Bytes × String) :=
+  tblSet tbl (Uuid.cid sha1 (utf8 vendor) (utf8 cls)) role
 
 def assignAll (sha1 : Bytes → Bytes) (tbl : List (Bytes × String)) (as : List (String × String × String)) : List (Bytes × String) :=
   as.foldl (fun t a => assign sha1 t a.1 a.2.1 a.2.2) tbl
